@@ -442,9 +442,8 @@ class SymdelDB:
 
         ans = []
         seqs2 = ensure_numpy(seqs2)
-        threshold = max_custom_distance
-        if custom_distance in (None, 'hamming') or max_custom_distance == float('inf'):
-            threshold = self.max_edits
+        is_custom = custom_distance not in (None, 'hamming')
+        threshold = max_custom_distance if is_custom else self.max_edits
         if custom_distance == 'hamming':
             custom_distance = _hamming_replacement
         elif custom_distance is None:
@@ -463,6 +462,8 @@ class SymdelDB:
                 for j in self.variant_dict[comb]:
                     j_indices.add(j)
             for j in j_indices:
+                if is_custom and levenshtein(seqs2[i], self.seqs[j]) > self.max_edits:
+                    continue
                 dist = custom_distance(seqs2[i], self.seqs[j])
                 if dist > threshold:
                     continue
@@ -532,9 +533,8 @@ def symdel(seqs, max_edits=1, max_returns=None, n_cpu=1,
 
     if seqs2 is None:
         ans = set()
-        threshold = max_custom_distance
-        if custom_distance in (None, 'hamming') or max_custom_distance == float('inf'):
-            threshold = max_edits
+        is_custom = custom_distance not in (None, 'hamming')
+        threshold = max_custom_distance if is_custom else max_edits
         if custom_distance == 'hamming':
             custom_distance = _hamming_replacement
         elif custom_distance is None:
@@ -545,6 +545,8 @@ def symdel(seqs, max_edits=1, max_returns=None, n_cpu=1,
             if len(values) == 1:
                 continue
             for i, j in combinations(values, 2):
+                if is_custom and levenshtein(seqs[i], seqs[j]) > max_edits:
+                    continue
                 dist = custom_distance(seqs[i], seqs[j])
                 if dist > threshold:
                     continue
